@@ -6,7 +6,8 @@ here = os.path.dirname(os.path.dirname(os.path.abspath(__file__)))
 dst = os.path.join(here, 'seeded', name)
 os.makedirs(dst, exist_ok=True)
 for f in ('patch.diff', 'demo.py'):
-    shutil.copy(os.path.join(sd, f), dst)
+    if os.path.realpath(os.path.join(sd, f)) != os.path.realpath(os.path.join(dst, f)):
+        shutil.copy(os.path.join(sd, f), dst)
 meta = json.load(open(os.path.join(sd, 'meta.json'))) if os.path.exists(os.path.join(sd, 'meta.json')) else {}
 res = open(os.path.join(sd, 'out', 'result.txt')).read().strip().split('\n')
 m = re.match(r'demo_exit_clean=(\d+) demo_exit_with_patch=(\d+) tests_with_patch="(.*)"', res[0])
@@ -18,6 +19,7 @@ for l in res[1:]:
 meta['confirmed_by_main'] = {
     'ran': 'tools/try_seed.sh (scratch worktree of /repo HEAD + git apply patch.diff; demo.py with and without the patch; whole pinned suite minus the two display tests that always time out; ./check with VERIF_REPO=<worktree> VERIF_SCRATCH=<scratch>)',
     'demo_exit_clean': int(m.group(1)), 'demo_exit_with_patch': int(m.group(2)), 'tests_with_patch': m.group(3),
+    'repo_head': os.popen('git -C /repo rev-parse --short HEAD').read().strip(),
     'checks': checks}
 json.dump(meta, open(os.path.join(dst, 'meta.json'), 'w'), indent=1)
 harmless = meta.get('kind') == 'harmless'
